@@ -284,6 +284,7 @@ func (x *c12Ctx) refMatVec(lt *c12LT, v []int64) []int64 {
 type c12Built struct {
 	common clt.LinearTransformation
 	adv    []uint64
+	advPkg []uint64 // the package-level GaloisElements(params, ltparams) on the caller's own index list
 	encErr bool
 }
 
@@ -309,6 +310,7 @@ func (x *c12Ctx) build(lt *c12LT) (b c12Built) {
 		}
 		b.common = clt.LinearTransformation(l)
 		b.adv = l.GaloisElements(x.bp)
+		b.advPkg = clt.GaloisElements(x.bp, p.DiagonalsIndexList, 1<<lt.logCols, lt.ratio)
 		return
 	}
 	dg := ckkslt.Diagonals[float64]{}
@@ -327,6 +329,7 @@ func (x *c12Ctx) build(lt *c12LT) (b c12Built) {
 	}
 	b.common = clt.LinearTransformation(l)
 	b.adv = l.GaloisElements(x.cp)
+	b.advPkg = ckkslt.GaloisElements(x.cp, p)
 	return
 }
 
@@ -382,6 +385,7 @@ type c12Case struct {
 	logCols int
 	v       []int64
 	lts     []*c12LT
+	pkgKeys bool // the Galois keys come ONLY from the package-level GaloisElements(params, ltparams)
 }
 
 func (x *c12Ctx) describe(cs *c12Case) string {
@@ -431,7 +435,11 @@ func (x *c12Ctx) runCase(c *Ctx, cs *c12Case) {
 			a = c12SortedU(a)
 		}
 		fmt.Fprintf(&head, "lt N1=%d keys=%s adv=%s ", built[i].common.N1, IVec(c12Keys(built[i].common)), Vec(a))
-		for _, g := range built[i].adv {
+		from := built[i].adv
+		if cs.pkgKeys {
+			from = built[i].advPkg
+		}
+		for _, g := range from {
 			if !seen[g] {
 				seen[g] = true
 				adv = append(adv, g)
@@ -496,10 +504,14 @@ func (x *c12Ctx) runCase(c *Ctx, cs *c12Case) {
 	sb.WriteString(head.String())
 	fmt.Fprintf(&sb, "req=%s %s", Vec(*reqs), status)
 	c.Count("eval:" + x.scheme + ":" + cs.mode + ":" + status)
+	pname := "keys_sufficient"
+	if cs.pkgKeys {
+		pname = "keys_sufficient_pkg" // keys generated only from lintrans.GaloisElements on the raw index list
+	}
 	if len(*missing) != 0 {
-		c.Probe("keys_sufficient", desc, "C12-keys-missing", fmt.Sprintf("missing=%s", Vec(*missing)))
+		c.Probe(pname, desc, "C12-keys-missing", fmt.Sprintf("missing=%s", Vec(*missing)))
 	} else {
-		c.Probe("keys_sufficient", fmt.Sprintf("%s logN=%d nLT=%d", x.scheme, x.logN, len(cs.lts)), "C12-keys-missing", "")
+		c.Probe(pname, fmt.Sprintf("%s logN=%d nLT=%d", x.scheme, x.logN, len(cs.lts)), "C12-keys-missing", "")
 	}
 	if status == "ok" {
 		// references
@@ -673,6 +685,56 @@ func genC12(c *Ctx) {
 	c12LevelP(c)
 	c12BigPrimes(c)
 	c12Margins(c)
+	c12PkgKeys(c)
+}
+
+// c12PkgKeys: the Galois keys are generated ONLY for what the package-level GaloisElements(params, ltparams)
+// advertises for the caller's own list of diagonal indices (negative spellings kept as given) — sparse packing
+// (ckks: every column count below the maximum; there 5^(-k mod N/2) != 5^(cols-k)), the naive algorithm and
+// every BSGS ratio, single / new / many evaluation.  keys_sufficient_pkg: no key is missing; the result is M*v.
+func c12PkgKeys(c *Ctx) {
+	for _, scheme := range []string{"ckks", "bgv"} {
+		x := newC12Ctx(scheme, c.Scale(5, 6))
+		L := x.maxLevel()
+		lcs := []int{x.logMaxC}
+		if scheme == "ckks" {
+			lcs = nil
+			for lc := 1; lc <= x.logMaxC; lc++ {
+				lcs = append(lcs, lc)
+			}
+		}
+		for _, logCols := range lcs {
+			for _, ratio := range []int{-1, -1, 0, 2} {
+				for _, kind := range []int{1, 3, 4, 5} {
+					if !c.Thorough() && (kind+logCols+ratio)%2 == 0 && ratio >= 0 {
+						continue
+					}
+					cols := 1 << logCols
+					lt := x.randLT(c, logCols, kind, ratio, L)
+					// every non-zero index in its NEGATIVE spelling
+					for i, d := range lt.idx {
+						if d > 0 && c.rng.Intn(4) != 0 {
+							lt.idx[i] = d - cols
+						}
+					}
+					cs := &c12Case{ctLevel: L, ctScale: x.ctScale(c), logCols: logCols, v: x.randVec(c, logCols), mode: "new", outLvl: L, pkgKeys: true}
+					cs.lts = []*c12LT{lt}
+					if kind == 5 && c.rng.Intn(2) == 0 {
+						cs.mode = "many"
+						lt2 := x.randLT(c, logCols, 3, -1, L)
+						for i, d := range lt2.idx {
+							if d > 0 {
+								lt2.idx[i] = d - cols
+							}
+						}
+						cs.lts = append(cs.lts, lt2)
+					}
+					c.Count(fmt.Sprintf("pkgkeys:%s:ratio%d", scheme, ratio))
+					x.runCase(c, cs)
+				}
+			}
+		}
+	}
 }
 
 // c12Margins: the only observable of the lazy-accumulation schedule — Parameters.QiOverflowMargin(level)
